@@ -106,7 +106,7 @@ def replay_h_family(record):
 
 
 def jobs(tier: str) -> List[Job]:
-    js = c01.jobs(tier)
+    js = [j for j in c01.jobs(tier) if j.func == "h_family"]
     for j in js:
         j.module = __name__
         j.must_exhaust = True
